@@ -6,17 +6,14 @@
    what Go did".
 
    No condition on the schema is needed (column names may repeat: every column of one name reads
-   the same value of the map). Two hypotheses on the case:
-   - `tuple_vals_ok` (on the INPUT): the values the schema's columns read are Go values - integers
-     within int64, strings shorter than 2^32 bytes (RefineCodec.val_ok, the `hev_ok` of C01). The
-     model's integers are unbounded: a BIGINT column given 2^63 is encoded modulo 2^64 and decoded
-     as -2^63, which the oracle rightly rejects (oracle_rejects_model_without_vals_ok); Go cannot
-     hold such a value.
-   - `tuple_dec_present` (on the OBSERVATION): when Go encoded the row, it also decoded it. The
-     agreement function does not look at a missing decode (`Ok _, None => true`) although the model
-     decodes everything it encodes, while the oracle rejects it: without the hypothesis agreement
-     does not imply acceptance (agreement_without_dec_present). This is a gap of
-     `tuple_model_agrees`, not of the oracle. *)
+   the same value of the map). One hypothesis on the case, on the INPUT:
+   `tuple_vals_ok`: the values the schema's columns read are Go values - integers within int64,
+   strings shorter than 2^32 bytes (RefineCodec.val_ok, the `hev_ok` of C01). The model's integers
+   are unbounded: a BIGINT column given 2^63 is encoded modulo 2^64 and decoded as -2^63, which the
+   oracle rightly rejects (oracle_rejects_model_without_vals_ok); Go cannot hold such a value.
+   (An earlier `tuple_model_agrees` did not look at a decode that Go failed to do, which needed a
+   second hypothesis on the observation; it now compares it with the model, which decodes
+   everything it encodes: failed_decode_now_disagrees.) *)
 From Coq Require Import Arith Lia Bool List NArith ZArith String Ascii.
 From Mkdb Require Import Model.Engine Spec.TableSpec Spec.HistObs Spec.TupleObs Proofs.BytesProofs
   Proofs.TupleProofs Proofs.RefineCodec.
@@ -28,9 +25,6 @@ Local Open Scope list_scope.
 (* ====================== the hypotheses ====================== *)
 Definition tuple_vals_ok (c : tuple_case) : bool :=
   let '(sch, m, _, _) := c in forallb (fun fd => val_ok (tget (fd_name fd) m)) sch.
-
-Definition tuple_dec_present (c : tuple_case) : bool :=
-  let '(_, _, enc, dec) := c in match enc, dec with Ok _, None => false | _, _ => true end.
 
 (* what the model does on the input of a case *)
 Definition tuple_model_obs (sch : schema) (m : tuple) : res bytes * option row :=
@@ -168,37 +162,31 @@ Qed.
 Lemma agreement_facts sch m enc dec :
   tuple_model_agrees (sch, m, enc, dec) = true ->
   encode_tuple sch m = enc /\
-  match enc, dec with Ok bs, Some r => decode_row sch bs = Ok r | _, _ => True end.
+  match enc, dec with
+  | Ok bs, Some r => decode_row sch bs = Ok r
+  | Ok bs, None => forall r, decode_row sch bs <> Ok r
+  | _, _ => True
+  end.
 Proof.
   unfold tuple_model_agrees. intros H. apply andb_true_iff in H as [H1 H2].
   assert (E : encode_tuple sch m = enc).
   { destruct (encode_tuple sch m) as [x|x|], enc as [y|y|]; cbn in H1; try discriminate; try reflexivity.
     - apply bytes_eqb_eq in H1. subst. reflexivity.
     - f_equal. destruct x, y; cbn in H1; try discriminate; reflexivity. }
-  split; [exact E|]. destruct enc as [bs|e|]; auto. destruct dec as [r|]; auto.
-  destruct (decode_row sch bs) as [r'| |]; try discriminate. apply row_eqb_eq in H2. subst. reflexivity.
-Qed.
-
-Theorem tuple_agreement_implies_acceptance : forall c : tuple_case,
-  tuple_vals_ok c = true -> tuple_dec_present c = true ->
-  tuple_model_agrees c = true -> tuple_spec c = true.
-Proof.
-  intros [[[sch m] enc] dec] Hok Hdp Hag. unfold tuple_vals_ok, tuple_dec_present in *.
-  destruct (agreement_facts sch m enc dec Hag) as [Ee Hd]. unfold tuple_spec. fold (row_of sch m).
-  destruct enc as [bs|e|]; auto. destruct dec as [r|]; [|discriminate].
-  destruct (encode_ok_spec sch m bs Hok Ee) as (_ & _ & C). rewrite C in Hd. inversion Hd; subst.
-  apply row_eqb_refl.
+  split; [exact E|]. destruct enc as [bs|e|]; auto. destruct dec as [r|].
+  - destruct (decode_row sch bs) as [r'| |]; try discriminate. apply row_eqb_eq in H2. subst. reflexivity.
+  - destruct (decode_row sch bs) as [r'| |]; try discriminate; intros r; discriminate.
 Qed.
 
 Theorem tuple_agreement_implies_strict_acceptance : forall c : tuple_case,
-  tuple_vals_ok c = true -> tuple_dec_present c = true ->
-  tuple_model_agrees c = true -> tuple_spec_strict c = true.
+  tuple_vals_ok c = true -> tuple_model_agrees c = true -> tuple_spec_strict c = true.
 Proof.
-  intros [[[sch m] enc] dec] Hok Hdp Hag. unfold tuple_vals_ok, tuple_dec_present in *.
+  intros [[[sch m] enc] dec] Hok Hag. unfold tuple_vals_ok in *.
   destruct (agreement_facts sch m enc dec Hag) as [Ee Hd]. unfold tuple_spec_strict. fold (row_of sch m).
   destruct enc as [bs|e|].
-  - destruct dec as [r|]; [|discriminate].
-    destruct (encode_ok_spec sch m bs Hok Ee) as (A & B & C). rewrite C in Hd. inversion Hd; subst.
+  - destruct (encode_ok_spec sch m bs Hok Ee) as (A & B & C).
+    destruct dec as [r|]; [|exfalso; exact (Hd _ C)].
+    rewrite C in Hd. inversion Hd; subst.
     rewrite A, B, Nat.eqb_refl, row_eqb_refl. reflexivity.
   - destruct (encode_err_spec sch m e Ee) as (A & [-> | ->]); rewrite A; reflexivity.
   - exfalso. exact (encode_no_panic sch m Ee).
@@ -212,30 +200,40 @@ Proof.
   destruct dec; [exact H | discriminate].
 Qed.
 
-(* ====================== the hypotheses are needed ====================== *)
+Theorem tuple_agreement_implies_acceptance : forall c : tuple_case,
+  tuple_vals_ok c = true -> tuple_model_agrees c = true -> tuple_spec c = true.
+Proof.
+  intros c Hok Hag. apply tuple_spec_strict_implies_spec.
+  exact (tuple_agreement_implies_strict_acceptance c Hok Hag).
+Qed.
+
+(* ====================== the hypothesis is needed ====================== *)
 (* a BIGINT column given 2^63: the model (unbounded integers) encodes it modulo 2^64 and reads back
-   -2^63; the oracle rejects that - rightly; Go's int64 cannot hold the value *)
+   -2^63; the oracles reject that - rightly; Go's int64 cannot hold the value *)
 Example oracle_rejects_model_without_vals_ok :
   let sch := [mkField TBigInt "a" 0] in
   let m := [("a", VInt 9223372036854775808)] in
   let c := (sch, m, fst (tuple_model_obs sch m), snd (tuple_model_obs sch m)) in
-  tuple_vals_ok c = false /\ tuple_dec_present c = true /\ tuple_model_agrees c = true /\
-  tuple_spec c = false /\ snd (tuple_model_obs sch m) = Some [VInt (-9223372036854775808)].
+  tuple_vals_ok c = false /\ tuple_model_agrees c = true /\
+  tuple_spec c = false /\ tuple_spec_strict c = false /\
+  snd (tuple_model_obs sch m) = Some [VInt (-9223372036854775808)].
 Proof. vm_compute. repeat split; reflexivity. Qed.
 
-(* Go encoded the row as the model does but failed to decode it: the agreement function does not
-   notice, the oracle does *)
-Example agreement_without_dec_present :
+(* Go encoded the row as the model does but failed to decode it: the agreement function now
+   notices (the model decodes these bytes), as the oracles do *)
+Example failed_decode_now_disagrees :
   let sch := [mkField TInt "a" 0] in
   let m := [("a", VInt 5)] in
   let c := (sch, m, encode_tuple sch m, None) in
-  tuple_vals_ok c = true /\ tuple_dec_present c = false /\ tuple_model_agrees c = true /\
-  tuple_spec c = false /\ decode_row sch (B [0; 5; 0; 0; 0]) = Ok [VInt 5].
+  tuple_vals_ok c = true /\ tuple_model_agrees c = false /\
+  tuple_spec c = false /\ tuple_spec_strict c = false /\ decode_row sch (B [0; 5; 0; 0; 0]) = Ok [VInt 5] /\
+  tuple_model_agrees (sch, m, encode_tuple sch m, Some [VInt 5]) = true.
 Proof. vm_compute. repeat split; reflexivity. Qed.
 
-(* what `tuple_spec` lets through and `tuple_spec_strict` does not: a valid row refused, an
-   encoding with a byte too many that still decodes (Decode ignores trailing bytes), a panic *)
-Example tuple_spec_is_lax :
+(* what `tuple_spec` lets through and `tuple_spec_strict` (the oracle of the check) does not: a
+   valid row refused, an encoding with a byte too many that still decodes (Decode ignores trailing
+   bytes), a panic; the agreement function rejects all three as well *)
+Example tuple_spec_strict_rejects :
   let sch := [mkField TInt "a" 0] in
   let m := [("a", VInt 5)] in
   tuple_spec (sch, m, Err ETypeMismatch, None) = true /\
@@ -244,5 +242,8 @@ Example tuple_spec_is_lax :
   tuple_spec_strict (sch, m, Ok (B [0; 5; 0; 0; 0; 0]), Some [VInt 5]) = false /\
   tuple_spec (sch, m, Panic, None) = true /\
   tuple_spec_strict (sch, m, Panic, None) = false /\
-  tuple_spec_strict (sch, m, Ok (B [0; 5; 0; 0; 0]), Some [VInt 5]) = true.
+  tuple_spec_strict (sch, m, Ok (B [0; 5; 0; 0; 0]), Some [VInt 5]) = true /\
+  tuple_model_agrees (sch, m, Err ETypeMismatch, None) = false /\
+  tuple_model_agrees (sch, m, Ok (B [0; 5; 0; 0; 0; 0]), Some [VInt 5]) = false /\
+  tuple_model_agrees (sch, m, Panic, None) = false.
 Proof. vm_compute. repeat split; reflexivity. Qed.
